@@ -77,7 +77,12 @@ Record header := {
 Record filt := {
   f_ctrl : option (bool * bool);
   f_sel : option (option N);
-  f_elems : option bool }.
+  f_elems : option bool;
+  (* the selectors / elements of ANOTHER function (the harness uses measurementListData's): FilterType.Data()
+     takes the LAST selectors and the LAST elements field in struct order whatever the cmd's function is, and
+     these come after the modelled function's; none of their field names exists in the modelled items *)
+  f_fsel : bool;
+  f_felems : bool }.
 
 Record regreq := { rq_cli : option faddr; rq_srv : option faddr; rq_type : option N }.
 Record regdel := { rd_cli : option faddr; rd_srv : option faddr }.
@@ -320,17 +325,28 @@ Fixpoint extract_filters (fx : bool) (l : list filt) (fp fd : option filt) : res
 
 (* FilterType.Data() succeeds: some selectors or elements field is set *)
 Definition filter_has_data (f : filt) : bool :=
-  match f_sel f, f_elems f with None, None => false | _, _ => true end.
+  f_fsel f || f_felems f || match f_sel f, f_elems f with None, None => false | _, _ => true end.
+
+(* FilterData.Selector / .Elements as the update engine sees them *)
+Inductive selk := SOwn (v : option N) | SForeign.
+
+Definition eff_sel (f : filt) : option selk :=
+  if f_fsel f then Some SForeign else match f_sel f with Some v => Some (SOwn v) | None => None end.
+
+(* a foreign elements value removes nothing from an item of the modelled function (RemoveElementFromItem
+   returns when the field counts differ): it acts like own elements that do not name the key *)
+Definition eff_elems (f : filt) : option bool := if f_felems f then Some false else f_elems f.
 
 (* FilterData.SelectorMatch on an item with key [k]; the unrepaired code panics when the
    selector names the key and the item has none *)
-Definition selector_match (fx : bool) (sel : option N) (k : option N) : res bool :=
+Definition selector_match (fx : bool) (sel : selk) (k : option N) : res bool :=
   match sel with
-  | None => Ok true
-  | Some v => match k with
-              | Some k' => Ok (N.eqb v k')
-              | None => guard fx S_SELMATCH (Ok false)
-              end
+  | SForeign => Ok true          (* no field of a foreign selector exists in the item: every item matches *)
+  | SOwn None => Ok true
+  | SOwn (Some v) => match k with
+                     | Some k' => Ok (N.eqb v k')
+                     | None => guard fx S_SELMATCH (Ok false)
+                     end
   end.
 
 Fixpoint map_res {A B} (f : A -> res B) (l : list A) : res (list B) :=
@@ -342,7 +358,7 @@ Fixpoint map_res {A B} (f : A -> res B) (l : list A) : res (list B) :=
 (* deleteFilteredData on the keys of the stored items (no item of the modelled list function has a
    "writecheck" field, so nothing here can fail) *)
 Definition delete_filtered (fx : bool) (f : filt) (store : list (option N)) : res (list (option N)) :=
-  match f_sel f, f_elems f with
+  match eff_sel f, eff_elems f with
   | None, None => Ok store
   | Some sel, Some idel =>
       map_res (fun k => m <- selector_match fx sel k ;; Ok (if m && idel then None else k)) store
@@ -354,7 +370,7 @@ Definition delete_filtered (fx : bool) (f : filt) (store : list (option N)) : re
 
 (* copyToSelectedData (every matching item receives the non-nil fields of the first new item) *)
 Definition copy_selected (fx : bool) (f : filt) (k0 : option N) (store : list (option N)) : res (list (option N)) :=
-  match f_sel f with
+  match eff_sel f with
   | None => Ok store
   | Some sel =>
       map_res (fun k => m <- selector_match fx sel k ;;
